@@ -529,7 +529,14 @@ def _d4(chk, fb, M):
     rs = [c for c in f.calls() if c["callee"]["name"] == "resize" and "obj" in c and render(f.obj(c)) == X]
     if rs:
         a = [render(x, local_inits(f)) for x in f.args(rs[0])]
-        if a[0] in (piv + ".size()",) and a[1].replace(" ", "") in ("((%s-%s)+1)" % (j1, j0), "(%s-%s)+1" % (j1, j0), "((%s+1)-%s)" % (j1, j0)):
+        shaped = a[0] in (piv + ".size()",) and a[1].replace(" ", "") in ("((%s-%s)+1)" % (j1, j0), "(%s-%s)+1" % (j1, j0), "((%s+1)-%s)" % (j1, j0))
+        always, path_ = e1.must_pass(f.cfg, {f.cfg.stmt_block(c) for c in rs})
+        if shaped and not always:
+            # a resize made only under a test of ONE dimension leaves the other as the caller left it
+            chk.refuted("D4", f.key, "gather-shape", f.loc(rs[0]),
+                        "X is given its shape only on some paths (the resize is conditional): an output matrix reused from an earlier call keeps a dimension that the guard does not test, and the copy loop writes outside it or leaves stale columns",
+                        witness={"history": "solve into X with a 3x3 right-hand side, then into the same X with a 3x1 right-hand side", "blocks": path_})
+        elif shaped:
             chk.proved("D4", f.key, "gather-shape", f.loc(rs[0]), "X is piv.size() x (j1 - j0 + 1)")
         else:
             chk.refuted("D4", f.key, "gather-shape", f.loc(rs[0]), "X is resized to (%s): the solution must have piv.size() rows and j1 - j0 + 1 columns" % ", ".join(a))
